@@ -236,6 +236,26 @@ def validate_trace(events, wdir, module="TraceAidl", chunk_events=1500, nproc=No
     return fails, {"states": dist, "transitions": gen, "chunks": len(chunks), "spec": spec_stats}
 
 
+def run_model_expect_violation(module, invariant, workers=2, timeout=600, wdir=None, env_extra=None):
+    """A negative control: the run MUST end with the named invariant violated (TLC exit code 12)."""
+    wdir = wdir or os.path.join(WORK, "mc")
+    os.makedirs(wdir, exist_ok=True)
+    meta = os.path.join(wdir, f"meta_neg_{module}_{os.getpid()}")
+    env = dict(os.environ)
+    env.pop("JAVA_TOOL_OPTIONS", None)
+    if env_extra:
+        env.update(env_extra)
+    cmd = ["timeout", str(timeout)] + _tlc_cmd(module + ".tla", module + ".cfg", meta, workers=workers, xmx="2g")
+    p = subprocess.run(cmd, cwd=SPEC, env=env, stdout=subprocess.PIPE, stderr=subprocess.STDOUT, text=True)
+    shutil.rmtree(meta, ignore_errors=True)
+    if f"Invariant {invariant} is violated" not in p.stdout:
+        sys.stderr.write(p.stdout[-3000:])
+        raise ToolError(f"negative control {module} {env_extra}: expected a violation of {invariant}")
+    st = parse_tlc_stats(p.stdout)
+    log(f"[tlc] {module} {env_extra}: invariant {invariant} violated as it must be (negative control), {st.get('distinct')} states")
+    return st
+
+
 def run_model(module, cfg=None, workers=8, timeout=1800, wdir=None, env_extra=None, xmx="8g"):
     """Runs a bounded model (MC_*). Returns (stdout, stats, printed strings)."""
     wdir = wdir or os.path.join(WORK, "mc")
